@@ -12,7 +12,9 @@ Definition LInv (l : link) : Prop :=
 
 (** the monitor's bookkeeping for a link agrees with the model link *)
 Definition SyncL (m : mlink) (l : link) : Prop :=
-  m_prev m = obs_link l /\ (m_ever m = true -> r_est (l_rc l) <> 0) /\ (l_sock l = false -> m_shut m = true).
+  m_prev m = obs_link l /\ (m_ever m = true -> r_est (l_rc l) <> 0) /\ (l_sock l = false -> m_shut m = true) /\
+  (* the monitor's own "last heard" never runs ahead of the stamp of a connected link *)
+  (forall h, m_heard m = Some h -> l_conn l = true -> exists x, l_lr l = Some x /\ h <= x).
 
 Definition op_pos (o : op) : Prop := forall t, op_time o = Some t -> 0 < t.
 Definition op_refresh (o : op) : Prop := match o with OTick _ r _ _ => r = true | _ => True end.
@@ -293,18 +295,97 @@ Proof. intros l [_ [H _]] E. destruct (l_lr l) as [x|]; [|reflexivity]. speciali
 Lemma clause1_ok : forall cfg pb o i m l l', 0 < cfg -> op_refresh o -> LInv l -> SyncL m l ->
   LStep cfg pb o i l l' -> c_teardown o i m (obs_link l') cfg = true.
 Proof.
-  intros cfg pb o i m l l' Hc Hr HI [SP [_ SS]] H. unfold c_teardown. rewrite SP.
+  intros cfg pb o i m l l' Hc Hr HI [SP [_ [SS SH]]] H. unfold c_teardown. rewrite SP.
   change (torn_down (obs_link l) (obs_link l')) with (torn_link l l').
   destruct (torn_link l l') eqn:T; [|reflexivity].
   pose proof (LStep_torn cfg pb o i l l' Hc Hr H T) as F.
   destruct o; try contradiction.
-  - unfold heard_nothing, heard_nothing_l in *. cbn [b_lr b_conn obs_link].
+  - assert (G : (negb (b_conn (obs_link l)) || heard_nothing_mon m now cfg) = true).
+    { cbn [b_conn obs_link]. destruct (l_conn l) eqn:C; [|reflexivity]. cbn [negb orb].
+      unfold heard_nothing_mon. destruct (m_heard m) as [h|]; [|reflexivity].
+      destruct (SH h eq_refl eq_refl) as (x & L & Hx). unfold heard_nothing_l in F. rewrite L in F. lia. }
+    rewrite G, andb_true_r.
+    unfold heard_nothing, heard_nothing_l in *. cbn [b_lr b_conn obs_link].
     destruct HI as [_ [HL _]].
     destruct (l_lr l) as [x|] eqn:L; cbn [oz].
     + specialize (HL x eq_refl). assert (x =? -1 = false) as -> by lia. lia.
     + rewrite F. reflexivity.
   - destruct F as [F1 F2]. unfold gen_changed. cbn [b_gen obs_link]. rewrite F2, Z.eqb_refl. rewrite Nat.eqb_sym. rewrite F1. reflexivity.
   - destruct F as [F1 F2]. unfold gen_changed. cbn [b_gen obs_link]. rewrite F1, Z.eqb_refl, (SS F2). reflexivity.
+Qed.
+
+(** ---- the monitor's own "last heard" stays behind the stamp of a connected link ---- *)
+Definition heard_next (o : op) (i : nat) (m : mlink) (q : lobs) : option Z :=
+  let hit := match op_on o with Some j => Nat.eqb j i | None => false end in
+  if torn_down (m_prev m) q then None
+  else match o with
+       | OKeepalive _ now _ | OInbound _ now _ | OReg3 _ now => if hit then Some now else m_heard m
+       | ORegErr _ _ => if hit then None else m_heard m
+       | _ => m_heard m
+       end.
+
+Lemma mon_link_heard : forall o cfg pb i m q w, m_heard (snd (mon_link o cfg pb i m q w)) = heard_next o i m q.
+Proof. intros. unfold mon_link. destruct (env_step o i m q w) as [[[rep envok] await] due]. reflexivity. Qed.
+
+Lemma heard_sync : forall cfg pb o i m l l', SyncL m l -> LStep cfg pb o i l l' ->
+  forall h, heard_next o i m (obs_link l') = Some h -> l_conn l' = true -> exists x, l_lr l' = Some x /\ h <= x.
+Proof.
+  intros cfg pb o i m l l' [SP [_ [_ SH]]] H h. unfold heard_next. rewrite SP.
+  change (torn_down (obs_link l) (obs_link l')) with (torn_link l l').
+  destruct (torn_link l l') eqn:T; [discriminate|]. unfold torn_link in T.
+  apply orb_false_iff in T as [TG TC]. apply negb_false_iff in TG. apply Z.eqb_eq in TG.
+  assert (Keep : forall l'', l_conn l'' = l_conn l -> l_lr l'' = l_lr l -> m_heard m = Some h -> l_conn l'' = true ->
+                 exists x, l_lr l'' = Some x /\ h <= x).
+  { intros l'' EC EL E C. rewrite EC in C. rewrite EL. exact (SH h E C). }
+  lstep_destruct H.
+  - subst. apply Keep; reflexivity.
+  - subst. apply Keep; reflexivity.
+  - destruct H as [->| ->]; apply Keep; reflexivity.
+  - (* tick *)
+    destruct H as [rg [classic [dg [w [_ ->]]]]].
+    set (l1 := if rg then _ else _) in *.
+    assert (A : l_conn l1 = l_conn l /\ l_lr l1 = l_lr l /\ l_gen l1 = l_gen l) by (unfold l1; destruct refresh, rg; cbn; auto).
+    destruct A as [A1 [A2 A3]].
+    destruct (tls_cases l1 now classic dg w) as [[_ [_ [X|X]]]|[[_ [_ X]]|[_ [X1 [X2 _]]]]].
+    + exfalso. rewrite X in TG. cbn in TG. lia.
+    + intros _ C. exfalso. rewrite X in C. cbn in C. discriminate.
+    + apply Keep; rewrite X; assumption.
+    + apply Keep; congruence.
+  - (* REG3 *)
+    subst. cbn [op_on]. rewrite (Nat.eqb_sym i0 i). unfold on_i. destruct (Nat.eqb i i0).
+    + intros E _. inversion E; subst. exists h. split; [reflexivity|lia].
+    + apply Keep; reflexivity.
+  - subst. apply Keep; reflexivity.
+  - subst. apply Keep; reflexivity.
+  - (* REG_ERR *)
+    subst. cbn [op_on]. rewrite (Nat.eqb_sym i0 i). unfold on_i. destruct (Nat.eqb i i0); [discriminate|].
+    apply Keep; reflexivity.
+  - (* keepalive echo *)
+    subst. cbn [op_on]. rewrite (Nat.eqb_sym i0 i). unfold on_i. destruct (Nat.eqb i i0).
+    + intros E _. inversion E; subst. exists h. split; [destruct ok; reflexivity|lia].
+    + apply Keep; reflexivity.
+  - (* other inbound datagram *)
+    cbn [op_on]. rewrite (Nat.eqb_sym i0 i). unfold on_i in *. destruct (Nat.eqb i i0).
+    + intros E _. inversion E; subst. exists h. split; [|lia].
+      destruct H as [->|[c ->]]; [reflexivity|].
+      match goal with |- context [if ?b then _ else _] => destruct b end; reflexivity.
+    + destruct H as [->|[c ->]]; [apply Keep; reflexivity|].
+      match goal with |- context [if ?b then _ else _] => destruct b end; apply Keep; reflexivity.
+  - (* data *)
+    destruct H as [l1 [Hl1 Hl']].
+    assert (A : l_conn l1 = l_conn l /\ l_lr l1 = l_lr l) by (destruct Hl1 as [->|[g ->]]; cbn; auto).
+    destruct A as [A1 A2].
+    destruct Hl' as [->| ->]; [apply Keep; assumption|].
+    unfold forward. destruct (flushed && l_io l1); [|apply Keep; assumption].
+    destruct (l_sock (set_inf l1 inf')) eqn:S.
+    + apply Keep; cbn; assumption.
+    + intros _ C. exfalso. cbn in C. discriminate.
+  - destruct H as [f ->]. destruct (l_io l); apply Keep; reflexivity.
+  - subst. unfold on_i. destruct (Nat.eqb i i0); apply Keep; reflexivity.
+  - subst. unfold on_i. destruct (Nat.eqb i i0); apply Keep; reflexivity.
+  - subst. unfold on_i. destruct (Nat.eqb i i0); apply Keep; reflexivity.
+  - subst. unfold on_i. destruct (Nat.eqb i i0); apply Keep; reflexivity.
+  - subst. apply Keep; reflexivity.
 Qed.
 
 Lemma clause2_ok : forall cfg pb o i m l l', LInv l -> SyncL m l ->
@@ -356,7 +437,8 @@ Proof.
   unfold mon_link. destruct (env_step o i m (obs_link l') w) as [[[rep envok] await] due].
   rewrite C1, C2, C3, C5, C6. cbn [negb fst snd]. split.
   - destruct (c_bound o rep envok (obs_link l')); reflexivity.
-  - destruct HS as [SP [SE SS]]. unfold SyncL. cbn [m_prev m_ever m_shut]. split; [reflexivity|]. split.
+  - pose proof (heard_sync cfg pb o i m l l' HS H) as HH.
+    destruct HS as [SP [SE [SS SH]]]. unfold SyncL. cbn [m_prev m_ever m_shut]. split; [reflexivity|]. split; [|split].
     + intros EV. cbn [b_conn obs_link] in EV. destruct (m_ever m) eqn:M.
       * apply (LStep_est cfg pb o i l l' Hp H). auto.
       * cbn in EV. destruct HI' as [_ [_ [X _]]]. auto.
@@ -366,6 +448,7 @@ Proof.
         -- rewrite (SS S0). destruct o; try reflexivity. apply orb_true_r.
         -- cbn [op_on]. rewrite Nat.eqb_sym. rewrite E. reflexivity.
       * congruence.
+    + intros h0 E C. apply (HH h0); [exact E|exact C].
 Qed.
 
 (** ---- lists of links ---- *)
